@@ -6,8 +6,11 @@ cd /repo || exit 2
 git diff --quiet || { echo "/repo is dirty"; exit 2; }
 git apply "$PATCH" || { echo "patch does not apply: $PATCH"; exit 2; }
 for P in "$@"; do
+  # the evidence file of the unchanged tree is put back afterwards (this run is of a patched tree)
+  cp /verif/evidence/$P.json /tmp/seedtest.evidence.$P.json 2>/dev/null
   OUT=$(cd /verif && VERIF_TIER=${TIER:-quick} ./run "$P" ${TIER:-quick} 2>/tmp/seedtest.err)
   RC=$?
+  cp /tmp/seedtest.evidence.$P.json /verif/evidence/$P.json 2>/dev/null; rm -f /tmp/seedtest.evidence.$P.json
   case $RC in
     1) echo "DETECTED $P $(echo "$OUT" | grep -c '^VIOLATION') violation lines: $(grep -m1 'check=' /tmp/seedtest.err | head -c 300)";;
     0) echo "MISSED $P";;
